@@ -1,2 +1,40 @@
-(* placeholder until the proofs land *)
-From Falco Require Import Model.Codec.
+(* C19 - The AST codec round-trips every statement and decoding is total.
+   This file holds only the property theorems (closed by [exact]) and their
+   Print Assumptions; the model is Model/Codec.v, the proofs are in Proofs/Codec*.v. *)
+From Coq Require Import List NArith ZArith.
+From Falco Require Import Base.Res Base.Bytes Base.Utf8 Gen.CodecFrames Model.CodecAst Model.Codec
+  Proofs.CodecTotal Proofs.CodecRT1 Proofs.CodecRoundtrip Proofs.CodecSize.
+Import ListNotations.
+
+(* Round trip: for every list of well-formed statements (any kind, any nesting depth, any
+   number of arguments / parameters / cases / entries), decoding the encoding returns exactly
+   the statements.  [wf_block] = what the parser produces: strings are Unicode scalar
+   sequences, integers are 64-bit patterns, no nil sub-expression, `error;` without a code
+   has no argument, and (KNOWN FINDING, see C19_leaf_64k_refuted) every leaf payload is
+   shorter than 65536 bytes. *)
+Theorem C19_decode_encode :
+  forall ss bs, wf_block ss -> encode ss = OK bs -> decode bs = OK ss.
+Proof. exact decode_encode. Qed.
+
+(* Totality and crash-freedom of the decoder on EVERY byte string. *)
+Theorem C19_decode_total : forall bs : list byte, decode bs <> OutOfFuel.
+Proof. exact (fun bs => proj1 (decode_total_no_crash bs)). Qed.
+
+Theorem C19_decode_no_crash : forall bs : list byte, decode bs <> Crash.
+Proof. exact (fun bs => proj2 (decode_total_no_crash bs)). Qed.
+
+(* T tie: the frame numbering regenerated from ast/codec/codec.go is injective and keeps the
+   two markers the wire format documents (END = 1, FIN = 2). *)
+Theorem C19_frame_numbering : NoDup frame_types /\ FT_END = 1%N /\ FT_FIN = 2%N /\ FT_UNKNOWN = 0%N.
+Proof. exact C19_frame_numbering_proof. Qed.
+
+(* the 16-bit length field: the round trip is FALSE without the leaf-size hypothesis *)
+Theorem C19_leaf_64k_refuted :
+  exists ss bs, encode ss = OK bs /\ decode bs <> OK ss.
+Proof. exact leaf_64k_refuted. Qed.
+
+Print Assumptions C19_decode_encode.
+Print Assumptions C19_decode_total.
+Print Assumptions C19_decode_no_crash.
+Print Assumptions C19_frame_numbering.
+Print Assumptions C19_leaf_64k_refuted.
